@@ -36,13 +36,15 @@ TOpt(t)      == TUnion(<<t, TS("none")>>)
 NoDef    == [k |-> "nodef", v |-> MkNone]
 DefVal(x) == [k |-> "val", v |-> x]
 DefFac(x) == [k |-> "fac", v |-> x]
-Fld(n, t, d) == [n |-> n, t |-> t, d |-> d, kw |-> "F", ins |-> <<n>>, out |-> n, ex |-> "F"]
+Fld(n, t, d) == [n |-> n, t |-> t, d |-> d, kw |-> "F", ins |-> <<n>>, out |-> n, ex |-> "F", init |-> "T"]
 NoHook == [k |-> "nohook"]
 TCls(name, fs, inf, outf) ==
   [k |-> "cls", name |-> name, fs |-> fs, inf |-> inf, outf |-> outf, extra |-> "F", hook |-> NoHook]
 
 -----------------------------------------------------------------------------
 (* the atom pools; string tokens are keys of StrFacts (see harness/vocab.py POOL) *)
+F50  == MkFloat(<<5, 1>>)
+C50  == MkComplex(Fin(<<5, 1>>), Fin(Zero))
 F15  == MkFloat(<<3, 2>>)
 F20  == MkFloat(<<2, 1>>)
 FInf == [k |-> "float", q |-> Zero, sp |-> "inf"]
@@ -50,9 +52,10 @@ FNan == [k |-> "float", q |-> Zero, sp |-> "nan"]
 C12  == MkComplex(Fin(<<1, 1>>), Fin(<<2, 1>>))
 
 ArbAtoms == { MkNone, MkBool("T"), MkBool("F"), MkInt(0), MkInt(1), MkInt(5), MkInt(-3),
-              F15, F20, FNan, C12, MkStr("s_a"), MkStr("s_empty"), MkStr("s_5"), MkBytes("b_x"), MkBArr("b_x") }
+              F15, F20, F50, C50, FNan, C12, MkStr("s_a"), MkStr("s_empty"), MkStr("s_5"), MkBytes("b_x"), MkBArr("b_x") }
 ArbComposite == { MkList(<<>>), MkList(<<MkInt(1)>>), MkTuple(<<MkStr("s_a"), MkInt(1)>>),
-                  MkDict(<<>>), MkDict(<< <<MkStr("s_a"), MkInt(1)>> >>), MkList(<<MkStr("s_a")>>) }
+                  MkDict(<<>>), MkDict(<< <<MkStr("s_a"), MkInt(1)>> >>), MkList(<<MkStr("s_a")>>),
+                  MkSeq("other", <<MkInt(1)>>), MkMap("proxy", << <<MkStr("s_a"), MkInt(1)>> >>) }
 Arb == ArbAtoms \cup ArbComposite
 
 ScalarMembers(k) ==
@@ -88,6 +91,27 @@ KeyAble(v) == CASE v.k = "bytes" -> v.mut = "F"
 Pick1(S) == CHOOSE x \in S : TRUE
 Pick2(S) == IF Cardinality(S) < 2 THEN Pick1(S) ELSE CHOOSE x \in S : x # Pick1(S)
 
+(* values around the thresholds and lengths the stock conditions use *)
+CondVals ==
+  { MkInt(n) : n \in {-2, -1, 0, 1, 2} }
+  \cup { MkFloat(<<n, 2>>) : n \in {-3, -1, 1, 3, 5} } \cup { MkFloat(<<0, 1>>), MkFloat(<<1, 1>>), MkFloat(<<-1, 1>>) }
+  \cup { [k |-> "float", q |-> Zero, sp |-> s] : s \in {"inf", "ninf", "nan", "nzero"} }
+  \cup { MkStr("s_frac"), MkStr("s_5"), MkStr("s_nfrac"), MkStr("s_empty"), MkStr("s_ab"), MkStr("s_abc") }
+  \cup { MkList(<<>>), MkList(<<MkInt(1)>>), MkList(<<MkInt(1), MkInt(1)>>), MkList(<<MkInt(1), MkInt(2)>>),
+         MkList(<<MkInt(1), MkInt(1), MkInt(2)>>), MkList(<<MkInt(1), MkInt(2), MkInt(3)>>), MkTuple(<<F15, MkFloat(<<-1, 2>>)>>) }
+  \cup { MkDict(<<>>), MkDict(<< <<MkStr("s_a"), MkInt(1)>> >>),
+         MkDict(<< <<MkStr("s_a"), MkInt(1)>>, <<MkStr("s_b"), MkInt(2)>>, <<MkStr("s_c"), MkInt(3)>> >>) }
+
+(* the data form of <<tag, body>> in the layout of T; `way` picks one of two key orders *)
+TagWrap(T, tag, body, way) ==
+  CASE T.lay = "int" -> IF body.k # "map" THEN MkNone
+                        ELSE LET rest == SelectSeq(body.ps, LAMBDA p : p[1] # MkStr(T.tag)) IN
+                             IF way = 1 THEN MkDict(<< <<MkStr(T.tag), tag>> >> \o rest)
+                             ELSE MkDict(rest \o << <<MkStr(T.tag), tag>> >>)
+    [] T.lay = "ext" -> IF KeyAble(tag) THEN MkDict(<< <<tag, body>> >>) ELSE MkNone
+    [] T.lay = "adj" -> IF way = 1 THEN MkDict(<< <<MkStr(T.tk), tag>>, <<MkStr(T.ck), body>> >>)
+                        ELSE MkDict(<< <<MkStr(T.ck), body>>, <<MkStr(T.tk), tag>> >>)
+
 RECURSIVE Members(_), Gen(_)
 Members(T) ==
   CASE T.k \in ScalarKinds -> ScalarMembers(T.k)
@@ -115,6 +139,9 @@ Members(T) ==
     [] T.k = "enum"  -> Range(T.vs)
     [] T.k = "ann"   -> Members(T.t)
     [] T.k = "sub"   -> Members(T.base)
+    [] T.k = "tagged" ->
+         UNION { UNION { { TagWrap(T, T.tags[i], b, 1), TagWrap(T, T.tags[i], b, 2) } :
+                         b \in {m \in Members(T.vars[i]) : m.k = "map"} } : i \in DOMAIN T.vars } \ {MkNone}
     [] T.k = "cls"   ->
          { MkDict([i \in DOMAIN T.fs |-> <<MkStr(T.fs[i].ins[1]), Pick1(Members(T.fs[i].t))>>]),
            MkDict(<< <<MkStr(T.fs[1].ins[1]), Pick2(Members(T.fs[1].t))>> >>),
@@ -154,8 +181,20 @@ Gen(T) ==
     [] T.k = "union" -> UNION { Gen(T.alts[i]) : i \in DOMAIN T.alts }
     [] T.k = "lit"   -> {}
     [] T.k = "enum"  -> {}
-    [] T.k = "ann"   -> Gen(T.t)
+    [] T.k = "ann"   -> Gen(T.t) \cup CondVals
     [] T.k = "sub"   -> Gen(T.base)
+    [] T.k = "tagged" ->
+         LET okbody == MkDict(<< <<MkStr("s_y"), MkInt(1)>> >>)
+             tagvals == Range(T.tags) \cup ArbAtoms \cup {MkStr("s_v3"), MkList(<<MkInt(1)>>), MkDict(<<>>), MkTuple(<<MkInt(1)>>)} IN
+         \* every tag value (declared, unknown, ill-kinded) with a fixed body; every body with every declared tag
+         ({ TagWrap(T, tg, okbody, 1) : tg \in tagvals }
+          \cup UNION { { TagWrap(T, T.tags[i], b, 1) : b \in UNION { Gen(T.vars[j]) : j \in DOMAIN T.vars } } : i \in DOMAIN T.tags }
+          \cup { MkDict(<< <<MkStr("s_y"), MkInt(1)>> >>),     \* tag absent
+                 MkDict(<< <<MkStr(T.tk), T.tags[1]>> >>), MkDict(<< <<MkStr(T.ck), okbody>> >>),
+                 MkDict(<< <<MkStr(T.tk), T.tags[1]>>, <<MkStr(T.ck), okbody>>, <<MkStr("s_zz"), MkInt(1)>> >>),
+                 MkDict(<< <<T.tags[1], okbody>>, <<MkStr("s_zz"), okbody>> >>),
+                 MkDict(<< <<MkStr(T.tk), T.tags[1]>>, <<MkStr("s_zz"), okbody>> >>),
+                 MkMap("proxy", << <<MkStr(T.tag), T.tags[1]>>, <<MkStr("s_y"), MkInt(1)>> >>) }) \ {MkNone}
     [] T.k = "cls"   ->
          LET base == [i \in DOMAIN T.fs |-> <<MkStr(T.fs[i].ins[1]), Pick1(Members(T.fs[i].t))>>]
              pos  == [i \in DOMAIN T.fs |-> Pick1(Members(T.fs[i].t))] IN
@@ -167,22 +206,107 @@ Gen(T) ==
                 MkList(<<>>), MkStr("s_ab") }
 
 -----------------------------------------------------------------------------
-(* the productions *)
+(* the productions: which leaves and which constructors, per family (Focus) *)
+TInt == TS("int")
+TStr == TS("str")
+TFloat == TS("float")
+KeyKinds == {"int", "str", "float", "bool", "none", "bytes", "decimal", "fraction", "date", "path",
+             "lit", "enum", "tuple", "frozenset", "any", "union", "ann", "sub", "complex", "time", "datetime"}
+
+ClsS(T) == TCls("KS", << Fld("s_a", T, NoDef), Fld("s_b", TInt, DefVal(MkInt(5))) >>, <<"struct">>, "struct")
+ClsT(T) == TCls("KT", << Fld("s_a", T, NoDef), Fld("s_b", TInt, DefVal(MkInt(5))) >>, <<"struct", "tuple">>, "struct")
+ClsP(T) == TCls("KP", << Fld("s_a", TStr, NoDef), Fld("s_b", T, NoDef) >>, <<"tuple">>, "tuple")
+
+LitIS  == TLit(<<MkStr("s_a"), MkInt(1), MkNone>>)
+EnumS  == TEnum("Color", <<MkStr("s_a"), MkStr("s_b")>>)
+EnumI  == TEnum("Num", <<MkInt(1), MkInt(2)>>)
+SubI   == TSub("MyInt", TInt)
+SubS   == TSub("MyStr", TStr)
+ExtraLeaves == { LitIS, TLit(<<MkBool("T")>>), EnumS, EnumI, SubI, SubS }
+
+(* C02: the target kinds of the matrix *)
+MatrixTargets ==
+  { TS(k) : k \in ScalarKinds } \cup ExtraLeaves \cup
+  { TSeq("list", TInt), TSeq("tuplevar", TStr), TSeq("set", TInt), TTuple(<<TInt, TStr>>),
+    TDict("dict", TStr, TInt), TStruct(<< <<"s_a", TInt>> >>), ClsS(TInt), ClsT(TStr), ClsP(TStr) }
+(* C02: the embedding contexts *)
+Contexts(T) ==
+  { TSeq("list", T), TSeq("set", T), TDict("dict", TStr, T), TTuple(<<TStr, T>>), TUnion(<<T, TS("bytes")>>),
+    TUnion(<<TS("bytes"), T>>), TOpt(T), TStruct(<< <<"s_a", T>> >>), ClsS(T), ClsP(T) }
+  \cup (IF T.k \in KeyKinds THEN { TDict("dict", T, TInt) } ELSE {})
+
+(* C11: members that overlap *)
+UPoolQ == { TInt, TFloat, TS("complex"), TS("bool"), TStr, TS("fraction"), TS("date"), TS("none"),
+            TLit(<<MkInt(1), MkInt(2)>>), TLit(<<MkStr("s_a")>>), EnumS, TAnn(TInt, <<[k |-> "pos"]>>), SubI,
+            TSeq("list", TInt), TSeq("tuplevar", TInt), TTuple(<<TInt, TInt>>),
+            ClsT(TInt), TCls("KB", << Fld("s_a", TInt, NoDef) >>, <<"struct", "tuple">>, "struct"),
+            TStruct(<< <<"s_a", TInt>> >>) }
+UPoolT == UPoolQ \cup { TS("decimal"), TS("datetime"), TS("any"), TS("pattern"), TS("path"), EnumI, SubS, TOpt(TInt),
+                        TDict("dict", TStr, TInt), TSeq("set", TInt) }
+UnionLeaves(P) == { TUnion(<<a, b>>) : a, b \in P }
+UnionNest(U) == { TUnion(<<U, m>>) : m \in {TStr, TFloat, TS("none")} } \cup { TUnion(<<m, U>>) : m \in {TStr, TInt} }
+                \cup { TOpt(U), TSeq("list", U), TDict("dict", TStr, U), ClsS(U) }
+
+(* C13: condition expressions *)
+Q(n, d) == <<n, d>>
+CBaseNum == { [k |-> "pos"], [k |-> "neg"], [k |-> "nonneg"], [k |-> "nonpos"], [k |-> "finite"],
+              [k |-> "ge", q |-> Q(0, 1)], [k |-> "le", q |-> Q(1, 1)], [k |-> "ge", q |-> Q(3, 2)], [k |-> "le", q |-> Q(-1, 1)] }
+CBaseLen == { [k |-> "empty"], [k |-> "nonempty"], [k |-> "lenge", n |-> 1], [k |-> "lenle", n |-> 2], [k |-> "lenge", n |-> 2] }
+CBaseUser == { [k |-> "utrue"], [k |-> "ufalse"], [k |-> "uraise"], [k |-> "even"] }
+CBase == CBaseNum \cup CBaseLen \cup CBaseUser
+CComb(S) == { [k |-> "not", c |-> c] : c \in S }
+            \cup { [k |-> "and", cs |-> <<a, b>>] : a, b \in S } \cup { [k |-> "or", cs |-> <<a, b>>] : a, b \in S }
+CSmall == { [k |-> "pos"], [k |-> "neg"], [k |-> "finite"], [k |-> "le", q |-> Q(1, 1)], [k |-> "uraise"], [k |-> "ufalse"],
+            [k |-> "lenge", n |-> 2], [k |-> "empty"] }
+CNest == { [k |-> "or", cs |-> << [k |-> "and", cs |-> <<[k |-> "pos"], [k |-> "finite"]>>], [k |-> "neg"] >>],
+           [k |-> "and", cs |-> << [k |-> "pos"], [k |-> "or", cs |-> <<[k |-> "finite"], [k |-> "neg"]>>] >>],
+           [k |-> "not", c |-> [k |-> "and", cs |-> <<[k |-> "ge", q |-> Q(0, 1)], [k |-> "le", q |-> Q(1, 1)]>>]],
+           [k |-> "and", cs |-> <<[k |-> "ge", q |-> Q(0, 1)], [k |-> "le", q |-> Q(1, 1)]>>],
+           [k |-> "and", cs |-> <<[k |-> "lenge", n |-> 1], [k |-> "lenle", n |-> 2]>>] }
+CondInnerQ == { TInt, TFloat, TS("fraction"), TSeq("set", TInt), TSeq("list", TInt), TStr, EnumI }
+CondInnerT == CondInnerQ \cup { TS("complex"), TS("decimal"), TDict("dict", TStr, TInt), TOpt(TInt), TSeq("tuplevar", TFloat), TS("bytes") }
+CondLeaves(I, CS) == { TAnn(t, <<c>>) : t \in I, c \in CS }
+                     \cup { TAnn(t, <<[k |-> "nonneg"], c>>) : t \in {TInt, TFloat}, c \in CBaseNum \cup CBaseUser }
+
+(* C12: tagged unions.  Variants V1 and V3 accept the same bodies; V2 differs in the type of y. *)
+TagFld(tok) == Fld("s_kind", TLit(<<MkStr(tok)>>), DefVal(MkStr(tok)))
+V1 == TCls("V1", << TagFld("s_v1"), Fld("s_y", TInt, DefVal(MkInt(6))) >>, <<"struct">>, "struct")
+V2 == TCls("V2", << TagFld("s_v2"), Fld("s_y", TStr, DefVal(MkStr("s_a"))) >>, <<"struct">>, "struct")
+V3 == TCls("V3", << TagFld("s_v3"), Fld("s_y", TInt, DefVal(MkInt(6))), Fld("s_z", TInt, DefVal(MkInt(7))) >>, <<"struct">>, "struct")
+V4 == TCls("V4", << Fld("s_y", TInt, NoDef), TagFld("s_v1") >>, <<"struct", "tuple">>, "struct")
+N1 == TCls("N1", << Fld("s_kind", TLit(<<MkInt(1)>>), DefVal(MkInt(1))), Fld("s_y", TInt, DefVal(MkInt(6))) >>, <<"struct">>, "struct")
+N2 == TCls("N2", << Fld("s_kind", TLit(<<MkInt(2)>>), DefVal(MkInt(2))), Fld("s_y", TInt, DefVal(MkInt(6))) >>, <<"struct">>, "struct")
+TTagged(vs, lay) ==
+  [k |-> "tagged", vars |-> vs, tag |-> "s_kind",
+   tags |-> [i \in DOMAIN vs |-> FieldByName(vs[i], "s_kind").d.v], lay |-> lay, tk |-> "s_t", ck |-> "s_c"]
+TaggedLeaves == { TTagged(vs, lay) : vs \in { <<V1, V2>>, <<V1, V2, V3>>, <<V3, V1>>, <<V4, V2>>, <<N1, N2>> },
+                                     lay \in {"int", "ext", "adj"} }
+
+(* C04: adversarial leaves *)
+ClsHook(c) == [TCls("KH", << Fld("s_a", TInt, NoDef), Fld("s_b", TInt, DefVal(MkInt(5))) >>, <<"struct", "tuple">>, "struct")
+                 EXCEPT !.hook = [k |-> "rejectif", f |-> "s_a", c |-> c]]
+ExcLeaves ==
+  { TS(k) : k \in {"fraction", "decimal", "date", "time", "datetime", "pattern", "patternb", "path", "int", "float", "complex"} }
+  \cup { TSeq("set", TSeq("list", TInt)), TSeq("frozenset", TSeq("set", TInt)), TDict("dict", TSeq("list", TInt), TInt),
+         TDict("dict", TSeq("tuplevar", TSeq("list", TInt)), TInt), TDict("dict", TS("fraction"), TInt),
+         TCounter(TSeq("list", TInt)), TSeq("set", TS("bytearray")), TDict("dict", TS("any"), TInt), TSeq("set", TS("any")),
+         TAnn(TInt, <<[k |-> "uraise"]>>), TAnn(TStr, <<[k |-> "pos"]>>), TAnn(TSeq("list", TInt), <<[k |-> "finite"]>>),
+         ClsHook([k |-> "uraise"]), ClsHook([k |-> "neg"]), ClsHook([k |-> "utrue"]),
+         TEnum("Mixed", <<MkInt(1), MkStr("s_a")>>), EnumS, SubI, SubS }
+
 LeafKinds ==
   CASE Focus = "core"   -> {"none", "bool", "int", "float", "complex", "str", "bytes", "any"}
     [] Focus = "scalar" -> ScalarKinds
     [] OTHER -> {"int", "str"}
-Leaves == { TS(k) : k \in LeafKinds }
-          \cup (IF Focus \in {"core", "scalar"}
-                THEN { TLit(<<MkStr("s_a"), MkInt(1), MkNone>>), TLit(<<MkBool("T")>>),
-                       TEnum("Color", <<MkStr("s_a"), MkStr("s_b")>>), TEnum("Num", <<MkInt(1), MkInt(2)>>),
-                       TSub("MyInt", TS("int")), TSub("MyStr", TS("str")) }
-                ELSE {})
-
-TInt == TS("int")
-TStr == TS("str")
-KeyKinds == {"int", "str", "float", "bool", "none", "bytes", "decimal", "fraction", "date", "path",
-             "lit", "enum", "tuple", "frozenset", "any", "union", "ann", "sub", "complex", "time", "datetime"}
+Leaves ==
+  CASE Focus \in {"core", "scalar"} -> { TS(k) : k \in LeafKinds } \cup ExtraLeaves
+    [] Focus = "matrix"  -> MatrixTargets
+    [] Focus = "unionq"  -> UnionLeaves(UPoolQ)
+    [] Focus = "uniont"  -> UnionLeaves(UPoolT)
+    [] Focus = "condq"   -> CondLeaves(CondInnerQ, CBase \cup CComb(CSmall) \cup CNest)
+    [] Focus = "condt"   -> CondLeaves(CondInnerT, CBase \cup CComb(CBase) \cup CNest)
+    [] Focus = "exc"     -> ExcLeaves \cup { TTagged(<<V1, V2>>, lay) : lay \in {"int", "ext", "adj"} }
+    [] Focus = "tagged"  -> TaggedLeaves
 
 Wrap(T) ==
   { TSeq(k, T) : k \in SeqKinds }
@@ -191,16 +315,22 @@ Wrap(T) ==
   \cup (IF T.k \in KeyKinds THEN { TDict("dict", T, TInt), TCounter(T) } ELSE {})
   \cup { TStruct(<< <<"s_a", T>> >>), TStruct(<< <<"s_a", TInt>>, <<"s_b", T>> >>) }
   \cup { TUnion(<<T, TStr>>), TUnion(<<TS("none"), T>>), TUnion(<<TInt, T>>) }
-  \cup { TCls("K1", << Fld("s_a", T, NoDef), Fld("s_b", TInt, DefVal(MkInt(7))) >>, <<"struct", "tuple">>, "struct") }
+  \cup { TCls("K1", << Fld("s_a", T, NoDef), Fld("s_b", TInt, DefVal(MkInt(5))) >>, <<"struct", "tuple">>, "struct") }
 
 (* a representative of each family of embedding context, for the outer levels of the quick tier *)
 WrapFew(T) ==
   { TSeq("list", T), TDict("dict", TStr, T), TTuple(<<TStr, T>>), TUnion(<<TS("none"), T>>),
-    TCls("K1", << Fld("s_a", T, NoDef), Fld("s_b", TInt, DefVal(MkInt(7))) >>, <<"struct", "tuple">>, "struct") }
+    TCls("K1", << Fld("s_a", T, NoDef), Fld("s_b", TInt, DefVal(MkInt(5))) >>, <<"struct", "tuple">>, "struct") }
+
+WrapOf(T, d) ==
+  CASE Focus = "matrix" -> Contexts(T)
+    [] Focus \in {"unionq", "uniont"} -> UnionNest(T)
+    [] Focus \in {"condq", "condt", "exc", "tagged"} -> WrapFew(T)
+    [] OTHER -> IF d = 0 \/ OuterWrap = "all" THEN Wrap(T) ELSE WrapFew(T)
 
 Init == /\ ph = "grow" /\ dep = 0 /\ ty \in Leaves /\ val = MkNone
 Grow == /\ ph = "grow" /\ dep < MaxDepth
-        /\ ty' \in (IF dep = 0 \/ OuterWrap = "all" THEN Wrap(ty) ELSE WrapFew(ty))
+        /\ ty' \in WrapOf(ty, dep)
         /\ dep' = dep + 1 /\ UNCHANGED <<val, ph>>
 PickValue == /\ ph = "grow" /\ ph' = "case"
              /\ val' \in Gen(ty) /\ UNCHANGED <<ty, dep>>
